@@ -2,7 +2,7 @@
 runs, what is symbolic and inside which bound, which real functions it
 executes.  The driver (bin/check) reads this; evidence files quote it."""
 
-TIMEOUT = {"quick": 600, "thorough": 5400}
+TIMEOUT = {"quick": 900, "thorough": 5400}
 REPLAY_TIMEOUT = 1800
 
 COMMON_STUBS = [
@@ -22,9 +22,9 @@ def prop(pid, outside="", assumptions=None):
     PROPERTIES[pid] = {"outside": outside, "assumptions": assumptions or []}
 
 
-def h(name, props, tier, bound, claims, functions, stubs=None):
+def h(name, props, tier, bound, claims, functions, stubs=None, heavy=False):
     H.append({"name": name, "props": props, "tier": tier, "bound": bound, "claims": claims,
-              "functions": functions, "stubs": stubs or []})
+              "functions": functions, "stubs": stubs or [], "heavy": heavy})
 
 
 def harnesses(pid, tier):
@@ -196,3 +196,85 @@ h("c04_pinned_header_full_length", ["C04"], "quick", "expected: any 64-byte valu
 h("c04_pinned_header_short_value", ["C04"], "quick", "expected: any value of length 0..63; archive header checksum: any 64 bytes",
   "with a shorter --verify-header value the clone must still proceed only if the checksums are equal",
   ["clone_cmd.rs: header checksum condition (extracted)", "HashSum::ne"])
+
+# ---------------------------------------------------------------------------
+# C08 local reader + first error
+# ---------------------------------------------------------------------------
+IOR = ["IoChunkReader::poll_chunk"]
+MOCK_IO = "mock AsyncRead/AsyncSeek/AsyncWrite implementors in the harness: a read returns any 0<n<=asked bytes of a fixed file (short read), Pending, EOF or an error; seeks record their target and may fail / complete later; writes may fail or accept only a prefix at any call"
+for nm, u in (("s2_s3_b0", "quick"), ("s3_s1_b3", "quick"), ("s1_s4_b2", "thorough")):
+    h("c08_io_seek_step_" + nm, ["C08", "C17"], u, "two chunks with the sizes in the name (concrete), offsets < 20 symbolic (any order), position symbolic; seek may fail / complete later; previous buffer length as in the name",
+      "state Seek: the reader seeks to exactly the chunk's own offset (no adjacency assumed), then asks for exactly `size` bytes with a buffer of exactly that size", IOR, [MOCK_IO])
+for nm, u in (("s2_b1", "quick"), ("s3_b0", "quick"), ("s1_b0", "thorough"), ("s2_b0", "thorough"), ("s3_b1", "thorough"), ("s3_b2", "thorough"), ("s4_b1", "thorough")):
+    h("c08_io_read_step_" + nm, ["C08"], u, "chunk size / bytes already read as in the name (concrete); offsets symbolic; the reader's answer symbolic: short read of 1..4 bytes, Pending, EOF, error",
+      "state Read under invariant J: a short read appends exactly n bytes and keeps J, a complete chunk is emitted as exactly its bytes (index+1, next chunk located by its own seek), Pending changes nothing, EOF => UnexpectedEof, errors forwarded",
+      IOR, [MOCK_IO], heavy=True)
+h("c08_io_end_of_list", ["C08"], "quick", "index at the end of a 2-chunk list", "end of list => end of stream without touching the reader", IOR, [MOCK_IO])
+h("c08_first_error_ends_stream", ["C08"], "quick", "inner stream of up to 4 items, each Ok/Err/end: symbolic",
+  "after the first Err the wrapper yields None forever and never polls the inner stream again", ["StreamUntilFirstError::poll_next"])
+
+# ---------------------------------------------------------------------------
+# C06 / C17
+# ---------------------------------------------------------------------------
+MODEL_MAP = "std HashMap/HashSet replaced (mirror edit) by an ideal-hash model map: keys address the same entry iff Eq AND identical bytes fed to Hasher; 4 slots"
+prop("C06",
+     outside="more than 2 descriptors; header-region reads (try_init), the in-place scan and the CLI flow incl. block devices (F3 of the property text) are not executable here; 'a chunk found in a seed is never requested' is the composition of this step with the lookup/remove step (entry removed when written)",
+     assumptions=["clone-index entries are injected directly; that feeding a chunk removes its entry is c02_index_lookup_step / c13_lookup_then_write_step"])
+prop("C17",
+     outside="protobuf decoding (unknown fields), the chunk_data_offset + archive_offset addition inside try_init, real decompression, HTTP body accumulation; more than 2 descriptors",
+     assumptions=[])
+h("c06_chunk_stream_step", ["C06", "C17"], "quick", "2 descriptors: archive offsets any u64 (any order/gaps/overlap), stored and source sizes 1..4; clone index any subset; archive-wide compression none/brotli",
+  "read_chunks receives exactly the descriptors still in the clone index, each once, in descriptor order, (offset,size) verbatim; nothing else is read; item i carries descriptor i's checksum; raw iff stored size == source size else the archive-wide algorithm",
+  ["Archive::chunk_stream", "ChunkIndex::contains", "StreamUntilFirstError::poll_next"], [MODEL_MAP, "recording ArchiveReader mock that answers each range with a slice of the requested length"])
+h("c17_pre_header_magics", ["C17", "C15"], "quick", "every byte string of length 0..16", "verify_pre_header accepts exactly b\"BITA1\\0\" and the legacy b\"\\0BITA1\" prefixes, rejects everything else (incl. < 6 bytes) without panicking", ["Archive::verify_pre_header"])
+
+# ---------------------------------------------------------------------------
+# C02 / C13 / C05
+# ---------------------------------------------------------------------------
+prop("C02",
+     outside="re-chunking of seeds with the archive's configuration, hashing of seed chunks and every CLI stage; Blake2 collisions on truncated hashes; the hit path of CloneOutput::feed as one unit (see C13)",
+     assumptions=["a seed can change WHETHER a chunk's bytes come from the archive, never WHICH bytes, provided equal truncated hashes mean equal bytes (collision freeness, not decidable)"])
+prop("C13",
+     outside="CloneOutput::feed's hit path as one unit does not get through CBMC (> 28 GB in propositional reduction for every variant tried); it is decomposed into the real lookup, the real write loop, both in feed's order, and feed's miss path -- the 4 lines of glue on the hit path are read, not executed. In-place stripping, reorder_in_place and the source-length bound need multi-offset indexes and the reorder planner (not applicable, as C03)",
+     assumptions=["invariant Inv: every clone-index entry is a true (hash,size,offset) of the source that has not been written yet"])
+prop("C05",
+     outside="the whole 're-run completes' half (rescan + reorder + fetch: C03/C09 territory, not executable as a whole); faults inside reorder_in_place; more than one destination offset in the fault harness",
+     assumptions=[])
+h("c02_key_consistency", ["C02", "C06"], "quick", "every 64-byte digest, every 64-byte stored key, every hash length 0..64 (full width)",
+  "the lookup key built by remove()/contains() equals AND hashes like the stored truncated key iff the first L bytes agree -- a std HashMap finds the entry exactly then",
+  ["TruncatedHashSum::sum", "HashSumKey::eq", "HashSumKey::hash", "HashSum::borrow"])
+h("c02_index_lookup_step", ["C02", "C06", "C13"], "quick", "hash length 1..8, 8-byte key and digest, any size/offset: symbolic",
+  "add_chunk then contains/remove: found iff truncated hashes agree; remove returns the stored size and offset and deletes the entry",
+  ["ChunkIndex::add_chunk", "ChunkIndex::contains", "ChunkIndex::remove"], [MODEL_MAP])
+h("c13_lookup_then_write_step", ["C13", "C02"], "quick", "index: the entry (key truncated to hash length 1..2, size 1..3, offset < 2^40) plus an unrelated entry; verified chunk with an arbitrary 8-byte hash",
+  "the two real functions in feed's order: hit iff truncated hashes agree; then exactly one seek to the entry's offset and the chunk's bytes, all of them, once; the entry is gone, the unrelated entry untouched; miss => nothing removed",
+  ["ChunkIndex::remove", "CloneOutput::write_offset"], [MODEL_MAP, MOCK_IO])
+h("c13_write_offset_step", ["C13"], "quick", "1..2 destination offsets < 2^40, chunk of 1..3 bytes: symbolic",
+  "per offset, in order: one seek to exactly that offset followed by all of the chunk's bytes, once", ["CloneOutput::write_offset"], [MOCK_IO])
+h("c13_feed_miss_empty_index", ["C13", "C02"], "quick", "empty index, hash length 0..4, arbitrary chunk hash", "feed() writes nothing and reports 0 when the chunk is not in the index", ["CloneOutput::feed", "ChunkIndex::remove"], [MODEL_MAP, MOCK_IO])
+h("c05_write_offset_fault_step", ["C05", "C13"], "quick", "one destination; the k-th seek fails, the k-th write fails, or the k-th write accepts only 0..2 bytes: k and the prefix symbolic; chunk 1..3 bytes",
+  "a failed or torn write/seek at any point => Err; Ok only when every byte reached the output contiguously from the destination (write_all's retry included); 0 bytes accepted => WriteZero error",
+  ["CloneOutput::write_offset"], [MOCK_IO])
+
+# ---------------------------------------------------------------------------
+# C15
+# ---------------------------------------------------------------------------
+prop("C15",
+     outside="the protobuf decoder and Blake2 over symbolic bytes (prost's per-byte decoding into Vecs does not finish), try_init as a whole (async_trait reader + header arithmetic; the dictionary-size arithmetic is read, not executed), lzma/zstd/brotli decoders, info_cmd printing; parameters > 9 in the `next` harnesses (constructors at full width); debug-profile semantics (overflow checks on): failures that only wrap in release are reported as such in DESIGN.md",
+     assumptions=["Kani checks every reachable panic, arithmetic overflow, out-of-bounds index and unwrap as a property, so a harness that merely runs a consumer on unconstrained values decides 'no panic within the bound'"])
+h("c15_params_any", ["C15"], "quick", "all six chunker parameters and both compression fields: any u32/i32",
+  "chunker_config_from_params / compression_from_dictionary never panic; unknown enum values are errors", ["chunker_config_from_params", "compression_from_dictionary"])
+h("c15_source_order_valid", ["C15", "C17"], "quick", "3 descriptors, 2 rebuild indexes: any usize", "whatever source_order_is_valid (called by try_init) accepts iterates without a panic, yielding running offsets and the indexed descriptors", ["source_order_is_valid", "Archive::iter_source_chunks"])
+h("c15_server_misbehaves_range_request", ["C15"], "quick", "open body at first<8, sent<=4, missing 1..4; one fragment of 0..6 bytes that stays inside what is missing; error/clean end; re-request reply arbitrary",
+  "no panic/overflow in the request state machine", ["HttpRangeRequest::poll_read", "HttpRangeRequest::poll_read_fail"], [STUB_REQWEST, STUB_FORMAT, STUB_SLEEP])
+h("c15_server_sends_too_much", ["C15"], "quick", "as above with a fragment LONGER than what is missing", "a server that sends more than the range asked for must not panic the request state machine", ["HttpRangeRequest::poll_read_fail"], [STUB_REQWEST, STUB_FORMAT, STUB_SLEEP])
+h("c15_chunk_reader_zero_size", ["C15"], "quick", "2 chunks, the first with stored size 0; one answer of the inner request", "a descriptor with stored size 0 must not panic the chunk reader", CR, [STUB_REQWEST, STUB_INNER])
+h("c15_accepted_params_run_rollsum", ["C15"], "quick", "RollSum: min, max, window 0..9, filter bits any u32; 6 symbolic bytes",
+  "every parameter set chunker_config_from_params ACCEPTS constructs and runs one next() without a panic and never yields an empty chunk", ["chunker_config_from_params"] + RHC + RS)
+h("c15_accepted_params_run_buzhash", ["C15"], "quick", "BuzHash: min, max 0..9, window 0..3, filter bits any u32; 6 symbolic bytes",
+  "as above for BuzHash", ["chunker_config_from_params"] + RHC + BUZ)
+h("c15_accepted_params_run_fixed", ["C15"], "quick", "FixedSize: size 0..9; 6 symbolic bytes", "as above for FixedSize", ["chunker_config_from_params", "FixedSizeChunker::next"])
+h("c15_accepted_params_arith_full_width", ["C15"], "quick", "all parameters any u32",
+  "for every ACCEPTED parameter set: mask(), hash_input_limit and info's chunk_target_average do not overflow; window in 1..=max, min<=max", ["chunker_config_from_params", "RollingHashChunker::new", "FilterBits::mask", "FilterBits::chunk_target_average"])
+h("c15_rollsum_arith_any_window", ["C15"], "quick", "window: any value 1..=u32::MAX (symbolic-size allocation, not touched)", "RollSum::new and one input never overflow (finding F13, fixed)", RS)
+h("c08_io_zero_size_range", ["C15", "C08"], "quick", "one zero-length range after a previous chunk of 0..3 bytes", "a zero-length range yields zero bytes, not the previous chunk's", IOR, [MOCK_IO])
